@@ -87,6 +87,8 @@ class Registry:
         self.notes = []
         self.abstract = {}
         self.owner_stable = []   # (cls, field, kind, when, justification)
+        self.relies = []         # (cls, fields, when-expr over self/me, justification)
+        self.kernel_facts = []   # (name, expr over me, justification): hold whenever `me` runs outside a private wait
 
 
 REG = Registry()
@@ -145,6 +147,18 @@ def monotone(cls, fields, why=""):
     """boolean fields that are only ever set to True"""
     for f in fields:
         REG.owner_stable.append((cls, f, "monotone", None, why))
+
+
+def rely(cls, fields, when, why=""):
+    """across a suspension of the running activity `me`: for every object of cls satisfying `when` (over self, me)
+    before the suspension, the listed fields are unchanged afterwards.  Must be backed by `guarantee` clauses."""
+    REG.relies.append((cls, list(fields), when, why))
+
+
+def kernel_fact(name, expr, why="", on_resume=None):
+    """fact about the running activity `me`, assumed at function entry and after every completed (suspending) call;
+    `on_resume` is the variant assumed when `me` is resumed at one of its own suspension points"""
+    REG.kernel_facts.append((name, expr, why, on_resume))
 
 
 def parse_expr(s):
